@@ -246,8 +246,18 @@ def run_inproc(E, spec, R, rng):
 
 
 def run_pool(E, spec, R, rng):
+    import math
+    # chunk shapes at the edges: a last chunk of exactly one sentence, an exact multiple, one more than the chunk size
+    edge = [(n, p) for p in (2, 3, 5, 8) for n in range(21, 61) if n % math.ceil(n / p) == 1]
     for ci in range(spec['cases']):
         n = rng.randint(21, 60)
+        forced = None
+        if ci == 0:
+            n, forced = rng.choice(edge)
+            R.count('pool:edge-shape-last-chunk-of-one')
+        elif ci == 1:
+            forced = rng.choice((2, 3, 5))
+            n = forced * rng.randint(5, 10)
         case, kinds = gen_batch(rng, n, hostile=False)
         delays = [rng.choice((0.0, 0.05, 0.3, 0.8)) for _ in range(8)]
         case['binary'] = DelayedBinary(case['grammar'], None)
@@ -256,7 +266,7 @@ def run_pool(E, spec, R, rng):
         if ref['error'] is not None or len(ref['results']) != n:
             R.violation('batch:misaligned', f'in-process run failed: {ref["error"]!r}', wit)
             continue
-        procs = rng.choice((1, 2, 3, 5, 8))
+        procs = forced or rng.choice((1, 2, 3, 5, 8))
         chunk = rng.choice((1, 2, 7, 20))
         case['binary'] = DelayedBinary(case['grammar'], delays)
         DelayedBinary._slept.clear()
